@@ -154,6 +154,48 @@ def damages(cm, text, binary, key):
         yield ("key", i, text, k2)
 
 
+# ---------------------------------------------------------------------------
+# large payloads: targeted damage at buffer-size boundaries and at the tail (wave-6 miss C04_1: a MAC
+# computed chunk-wise that skips a final one-byte chunk, visible only for stored lengths k*1024+1)
+
+LARGE_LENS = [1023, 1024, 1025, 1039, 1041, 2047, 2048, 2049, 3073, 4095, 4096, 4097, 8193]
+CHUNKS = (256, 512, 1000, 1024, 2048, 4096, 8192)
+
+
+def large_damages(cm, text, binary, key, npay):
+    """(kind, param, damaged text, key) for a file whose LAST component is the large one (npay stored bytes)"""
+    start = len(binary) - npay
+    offs = {0, 1, 15, 16, 17, npay - 1, npay - 2, npay - 16, npay - 17, npay // 2}
+    for c in CHUNKS:
+        for k in range(1, npay // c + 1):
+            offs.update((k * c - 1, k * c, k * c + 1))
+    for o in sorted(x for x in offs if 0 <= x < npay):
+        pos = start + o
+        for y in (binary[pos] ^ 1, binary[pos] ^ 0x80, (binary[pos] + 1) & 0xFF):
+            yield ("byte", (pos, y), B.text_of_binary(cm, binary[:pos] + bytes([y]) + binary[pos + 1:]), key)
+    for n in (1, 2, 15, 16, 17, 32):
+        if n < len(binary):
+            yield ("binprefix", len(binary) - n, B.text_of_binary(cm, binary[:len(binary) - n]), key)
+    stripped = text.rstrip("\r\n")
+    for n in (1, 2, 3, 4):
+        yield ("textprefix", len(stripped) - n, stripped[:len(stripped) - n], key)
+    for sfx in SUFFIXES[:3]:
+        yield ("suffix", sfx, text + sfx, key)
+
+
+def large_files(ctx):
+    r = ctx.rng
+    lens = LARGE_LENS if not ctx.quick() or ctx.brokens else \
+        [1024, 1025, 2049, 4097] + r.sample([x for x in LARGE_LENS if x not in (1024, 1025, 2049, 4097)], 2)
+    for n in lens:
+        for enc in (False, True):
+            blob = nz(r, n - 1) + bytes([r.choice([0, 0x10, 0xA7])])
+            first = [({0xC3: b"\x01"}, nz(r, 5), None, False)] if r.random() < 0.5 else []
+            comps = first + [({0xC2: b"\x02"} if enc else {0xC4: b"\x00\xb6"}, blob, None, enc)]
+            yield {"L": str(n)}, comps, B.rkey(r), (len(pad16(blob)) if enc else n)
+
+
+
 def judge(res, want):
     """the property predicate: an error, or exactly the original content.  Returns None or a reason."""
     if res[0] == "err":
@@ -549,6 +591,26 @@ def search(ctx):
             why = judge(res, want)
             if why:
                 ctx.fail("damage-accepted", fail_record("bf3", cm, comps, key, kind, param, t2, k2), "%s %r: %s" % (kind, param, why))
+    # large payloads (lengths around 1 KiB .. 8 KiB buffer sizes): targeted damage
+    for cm, comps, key, npay in large_files(ctx):
+        wr = written(cm, comps, key)
+        if wr is None:
+            continue
+        text, binary = wr
+        base = B.impl_read(text, True, key)
+        ctx.case(("authentic-large", text, key), trivial=False)
+        if base[0] != "ok":
+            ctx.notes.append("undamaged large file rejected by the reader (%s): skipped (C01/C06 territory)" % base[1])
+            continue
+        want = B.file_view(base[1])
+        ctx.dist["bf3-large:len=%s" % cm["L"]] += 1
+        for kind, param, t2, k2 in large_damages(cm, text, binary, key, npay):
+            res = B.impl_read(t2, True, k2)
+            ctx.case(("bf3-large", kind, param, text, k2), trivial=False)
+            errs["bf3-large:%s->%s" % (kind, res[1] if res[0] == "err" else "original")] += 1
+            why = judge(res, want)
+            if why:
+                ctx.fail("damage-accepted", fail_record("bf3", cm, comps, key, kind, param, t2, k2), "%s %r: %s" % (kind, param, why[:300]))
     # BEC2: signature + customer-key auth block + the same body at offset len(header)
     ef = enc_tag_files(r)
     bfiles = boundary_files(r)[1:4] + [dup_files(r)[0], dup_files(r)[3], ef[0], ef[3]] + [random_file(r) for _ in range(nbec2)]
